@@ -54,7 +54,7 @@ def model(seq):
 def chunks(tier, seed):
     out = []
     for d in fp.CTX:
-        for pos in ("top", "from_sub", "setop_operand", "setop_self"):
+        for pos in ("top", "from_sub", "setop_operand", "setop_self", "setop_self_ordered_operand"):
             for order in (False, True):
                 out.append({"d": d, "pos": pos, "order": order, "depth": 2 if tier == "quick" else 3})
     return out
@@ -63,7 +63,7 @@ def chunks(tier, seed):
 def expand(chunk):
     d = chunk["d"]
     ops = alphabet(d)
-    if chunk["pos"] == "setop_self":
+    if chunk["pos"].startswith("setop_self"):
         ops = [o for o in ops if o[0] in ("limit", "offset")]
     seen = set()
     for k in range(0, chunk["depth"] + 1):
@@ -116,8 +116,12 @@ def paren_group_after(toks, word):
 
 
 def tail_of(tl):
-    """(has_order_by, tail items) — tail = from the first LIMIT/OFFSET/FETCH keyword at depth 0"""
-    has_order = any(k == "WORD" and v == "ORDER" for k, v, _ in tl)
+    """(has_order_by, tail items) — tail = from the first LIMIT/OFFSET/FETCH keyword at depth 0.
+    has_order_by is "dup" when ORDER BY occurs more than once at depth 0 (the statement is then not grammatical)."""
+    # for a set operation with unwrapped operands only the part after the last set operator belongs to it
+    last_op = max([i for i, (k, v, _) in enumerate(tl) if k == "WORD" and v in ("UNION", "INTERSECT", "EXCEPT", "MINUS")] or [-1])
+    n_order = sum(1 for k, v, _ in tl[last_op + 1:] if k == "WORD" and v == "ORDER")
+    has_order = "dup" if n_order > 1 else n_order == 1
     for i, (k, v, _) in enumerate(tl):
         if k == "WORD" and v in ("LIMIT", "OFFSET", "FETCH"):
             tail = tl[i:]
@@ -151,6 +155,8 @@ def words(tail):
 def check_tail(d, lim, off, has_order, tail, vals, nprev):
     """-> None or a short symptom string.  nprev = number of values that precede the tail in the list."""
     used = [0, nprev]
+    if has_order == "dup":
+        return "order-by-twice"
     W = words(tail)
     kw = [v for k, v in W if k == "WORD"]
     if d in ("generic", "sqlite", "mysql", "postgresql"):
@@ -225,8 +231,9 @@ def build_case(d, pos, order, seq):
     inner_calls = [["from", T], ["select", [fa]]]
     if order:
         inner_calls.append(["orderby", [fa], "asc"])
-    if pos == "setop_self":
-        calls = [["from", T], ["select", [fa]], ["union_all", {"calls": [["from", T], ["select", [["f", "t", "b"]]]]}]]
+    if pos.startswith("setop_self"):
+        first = [["from", T], ["select", [fa]]] + ([["orderby", [fa], "desc"]] if pos.endswith("ordered_operand") else [])
+        calls = first + [["union_all", {"calls": [["from", T], ["select", [["f", "t", "b"]]]]}]]
         if order:
             calls.append(["orderby", [fa], "asc"])
         return {"calls": calls + seq}
@@ -266,7 +273,7 @@ def run_case(case):
         except LexError as e:
             res.violate("C09|%s|unlexable" % d, "SQL does not lex", program=p, sql=sql, error=str(e))
             return res
-        if pos == "top" or pos == "setop_self":
+        if pos == "top" or pos.startswith("setop_self"):
             span = toks
         elif pos == "from_sub":
             span = paren_group_after(toks, "FROM")
@@ -288,7 +295,7 @@ def run_case(case):
         dd = "sqlite" if d == "generic" else d
         sym = check_tail(dd, lim, off, has_order, tail, vals if param else None, nprev)
         if sym:
-            res.violate("C09|%s|%s|%s" % (d, "setop" if pos == "setop_self" else "query", sym),
+            res.violate("C09|%s|%s|%s" % (d, "setop" if pos.startswith("setop_self") else "query", sym),
                         "row-limiting clause is not the dialect's grammar / values not in their slots (%s)" % sym,
                         dialect=d, position=pos, calls=seq, model={"limit": lim, "offset": off}, sql=sql,
                         values=fp.vrepr(vals) if vals is not None else None, param=param)
